@@ -21,6 +21,7 @@ import (
 	"net"
 	"reflect"
 	"slices"
+	"sync"
 
 	"github.com/google/cel-go/cel"
 	"github.com/google/cel-go/common/operators"
@@ -137,7 +138,32 @@ func (networksLib) ProgramOptions() []cel.ProgramOption {
 }
 
 func (networksLib) CompileOptions() []cel.EnvOption {
-	var networkInstances []IPNetworks
+	// the functions below are evaluated with each execution of an expression using them, that is
+	// concurrently for concurrent requests. So the access to the already created instances is guarded
+	var (
+		networkInstances []IPNetworks
+		mut              sync.Mutex
+	)
+
+	lookupOrCreate := func(addresses []string) ref.Val {
+		mut.Lock()
+		defer mut.Unlock()
+
+		for _, net := range networkInstances {
+			if slices.Equal(net.cidrs, addresses) {
+				return net
+			}
+		}
+
+		networks, err := newIPNetworks(addresses)
+		if err != nil {
+			return types.WrapErr(err)
+		}
+
+		networkInstances = append(networkInstances, networks)
+
+		return networks
+	}
 
 	return []cel.EnvOption{
 		// IPNetworks specific functions
@@ -145,22 +171,7 @@ func (networksLib) CompileOptions() []cel.EnvOption {
 			cel.Overload("networks_from_cidr",
 				[]*cel.Type{cel.StringType}, ipNetworksType,
 				cel.UnaryBinding(func(netVal ref.Val) ref.Val {
-					addresses := []string{netVal.Value().(string)} // nolint: forcetypeassert
-
-					for _, net := range networkInstances {
-						if slices.Equal(net.cidrs, addresses) {
-							return net
-						}
-					}
-
-					networks, err := newIPNetworks(addresses)
-					if err != nil {
-						return types.WrapErr(err)
-					}
-
-					networkInstances = append(networkInstances, networks)
-
-					return networks
+					return lookupOrCreate([]string{netVal.Value().(string)}) // nolint: forcetypeassert
 				}),
 			),
 			cel.Overload("networks_from_cidr_array",
@@ -174,20 +185,7 @@ func (networksLib) CompileOptions() []cel.EnvOption {
 					addresses := cidrs.([]string) // nolint: forcetypeassert
 					slices.Sort(addresses)
 
-					for _, net := range networkInstances {
-						if slices.Equal(net.cidrs, addresses) {
-							return net
-						}
-					}
-
-					networks, err := newIPNetworks(addresses)
-					if err != nil {
-						return types.WrapErr(err)
-					}
-
-					networkInstances = append(networkInstances, networks)
-
-					return networks
+					return lookupOrCreate(addresses)
 				}),
 			),
 		),
